@@ -16,6 +16,8 @@ CONSTANTS KeyChars,     \* characters key/term text is drawn from
           MaxSegs,      \* length bound of the sequence
           RichFirst,    \* TRUE: only the first segment ranges over the whole vocabulary
           Family        \* "all": the whole grammar; "collectors": chains of collectors with and without operators
+\* defined here, not in the cfg: TLC's cfg parser keeps backslash escapes in string literals
+KeyCharsFull == {"a", "1", ".", "/", "[", "]", "(", ")", "'", "\"", " ", "^", "$", "%", "\\", "=", "-", ":"}
 VARIABLES segs, part    \* part: which slice of the first-segment vocabulary this behaviour explores
                         \* (16 initial states so that TLC's workers share the first level)
 
